@@ -415,6 +415,17 @@ impl Ops {
                     req, &self.actor, krill
                 ).map_err(short)
             }
+            // a CA of its own (no parent, no repository), created, given a
+            // new identity, deleted
+            "ca_add" => cam.init_ca(ca_handle(ca), krill).map_err(short),
+            "ca_id" => {
+                cam.ca_update_id(ca_handle(ca), &self.actor, krill)
+                    .map_err(short)
+            }
+            "ca_del" => {
+                cam.delete_ca(&ca_handle(ca), &self.actor, &self.slow)
+                    .map_err(short)
+            }
             "child_rm" => {
                 cam.ca_child_remove(
                     &ca_handle(ca),
